@@ -74,6 +74,10 @@ pub struct WorldState {
     /// The fault chosen for this run (it fires only if the stream is polled at that point).
     pub planned: Option<Fired>,
     pub fault_armed: bool,
+    /// Further faults that may still be planned in this run (compensating pairs: one stream too
+    /// long, another too short by the same amount).
+    pub faults_left: u32,
+    pub fired_all: Vec<Fired>,
     pub events: Vec<(u64, u64, Waker)>,
     pub seq: u64,
     pub now_ns: u128,
@@ -99,6 +103,8 @@ impl World {
                 fired: None,
                 planned: None,
                 fault_armed: false,
+                faults_left: 0,
+                fired_all: Vec::new(),
                 events: Vec::new(),
                 seq: 0,
                 now_ns,
@@ -157,7 +163,7 @@ impl http_serve::Entity for SimEntity {
         let len = range.end.saturating_sub(range.start);
         // Decide whether this stream is the faulty one of the run.
         let mut fault = None;
-        if st.fault_armed && st.fired.is_none() && !st.knobs.faults.is_empty() {
+        if st.fault_armed && !st.knobs.faults.is_empty() {
             let p = st.knobs.fault_p16;
             let kinds = st.knobs.faults.clone();
             let tape = st.tape.as_mut().expect("tape lent to the world");
@@ -181,7 +187,11 @@ impl http_serve::Entity for SimEntity {
                 };
                 if let Some(at) = at {
                     fault = Some((kind, at));
-                    st.fault_armed = false;
+                    if st.faults_left == 0 {
+                        st.fault_armed = false;
+                    } else {
+                        st.faults_left -= 1;
+                    }
                     st.planned = Some(Fired { kind, call, at, range_len: len, chunks_before: 0, pending_before: false });
                 }
             }
@@ -196,8 +206,8 @@ impl http_serve::Entity for SimEntity {
             call,
             done: false,
             chunks: 0,
-            pend_budget: 6,
-            empty_budget: 4,
+            pend_budget: if crate::core::deep() { 12 } else { 6 },
+            empty_budget: if crate::core::deep() { 8 } else { 4 },
             empties_to_emit: 0,
             had_pending: false,
             extra_emitted: false,
@@ -244,6 +254,17 @@ pub struct SimStream {
 
 impl SimStream {
     fn fire(&mut self, st: &mut WorldState, kind: FaultKind) {
+        let f = Fired {
+            kind,
+            call: self.call,
+            at: self.pos,
+            range_len: self.len,
+            chunks_before: self.chunks,
+            pending_before: self.had_pending,
+        };
+        if !st.fired_all.iter().any(|x| x.call == f.call) {
+            st.fired_all.push(f);
+        }
         if st.fired.is_some() {
             return;
         }
@@ -390,7 +411,7 @@ impl Stream for SimStream {
                 },
             };
             // Keep runs bounded: after 12 chunks hand over the rest at once.
-            if this.chunks >= 12 {
+            if this.chunks >= if crate::core::deep() { 40 } else { 12 } {
                 n = room;
             }
             let mut emit = n;
